@@ -535,6 +535,10 @@ class OdeModel:
                 l, r = a[2], a[3]
                 # the flag may be added as a bool, as int(flag) or as `1 if flag else 0` (is_has_thermal sees through these)
                 return (self.is_n_spec(l) and self.is_has_thermal(r)) or (self.is_n_spec(r) and self.is_has_thermal(l))
+            if b == ("const", 1) and a[0] == "ifexp" and self.is_has_thermal(a[1]) and self.is_n_spec(a[3]) and a[2][0] == "binop" and a[2][1] == "Add":
+                # the sum written as a choice: `n_spec + 1 if has_thermal else n_spec`
+                l, r = a[2][2], a[2][3]
+                return (self.is_n_spec(l) and r == ("const", 1)) or (self.is_n_spec(r) and l == ("const", 1))
         return False
 
     def decode_flat(self, idx, guards=()):
